@@ -78,11 +78,16 @@ func genSessOps(rng *rand.Rand, maxLen int) string {
 		return "-"
 	}
 	ops := make([]string, n)
+	sent := false
 	for i := range ops {
-		if rng.Intn(100) < 35 {
+		switch k := rng.Intn(100); {
+		case k < 35:
 			ops[i] = "F"
-		} else {
+		case k < 47 && sent:
+			ops[i] = "A" // the previous message again, the same value
+		default:
 			ops[i] = "S:" + genMsgItems(rng)
+			sent = true
 		}
 	}
 	return strings.Join(ops, ";")
@@ -225,6 +230,22 @@ func genProvider(rng *rand.Rand) string {
 	return ret + "/" + ops
 }
 
+// genC16S: session cases only (what sending a message through a Session does to the message: C19)
+func genC16S(rng *rand.Rand, n int, thorough bool, emit func(string)) {
+	emitted := 0
+	for emitted < n {
+		shape := genShape(rng)
+		ops := genSessOps(rng, 6)
+		calls := writerCalls("SESS", []string{shape, "-", ops})
+		for _, f := range faultSchedules(rng, calls, thorough) {
+			if emitted < n {
+				emit(fmt.Sprintf("SESS %s %s %s", shape, f, ops))
+				emitted++
+			}
+		}
+	}
+}
+
 func genC16(rng *rand.Rand, n int, thorough bool, emit func(string)) {
 	emitted := 0
 	out := func(l string) {
@@ -254,4 +275,4 @@ func genC16(rng *rand.Rand, n int, thorough bool, emit func(string)) {
 	}
 }
 
-func init() { generators["C16"] = genC16 }
+func init() { generators["C16"] = genC16; generators["C16S"] = genC16S }
